@@ -134,7 +134,15 @@ Fixpoint rename_from (names : list nat) (b : nat) (i : nat) (l : list fcomp) : l
 Section Expand.
 Variable pol : policy.
 Variable tg : tagging.
-Variable done : list def.     (* the definitions before the current one, expanded *)
+(* [final = true]: the type as the later passes (and [check], [distinct_spec])
+   see it.  [final = false]: the type as a later COMPONENTS OF clones it —
+   spliced only: the automatic tags are assigned by a pass that runs after every
+   definition has been expanded, so a clone still carries the tags as written
+   (X.680: the transformation works on the notation), and the clone carries the
+   real identifiers (asn1c runs asn1f_check_unique_expr again on constructed
+   types nested in cloned components, this time on their expanded lists). *)
+Variable final : bool.
+Variable done : list def.     (* the definitions before the current one, spliced *)
 
 (* the root components COMPONENTS OF T_r contributes to a type of kind k;
    None: T_r is not (a reference chain to) an earlier SEQUENCE resp. SET *)
@@ -162,13 +170,13 @@ Definition untag_inh (f : fcomp) : fcomp :=
   match f with (inh, (c, t)) => (inh, (if inh then untag c else c, t)) end.
 
 Definition finish (k : kind) (auto : bool) (e1 : list fcomp) (ee : option (list fcomp)) (e2 : list fcomp) : ty :=
-  let un := fun l : list fcomp => if auto then map untag_inh l else l in
+  let un := fun l : list fcomp => if final && auto then map untag_inh l else l in
   let f1 := un e1 in
   let fa := match ee with Some a => un a | None => [] end in
   let f2 := un e2 in
   let names := map fname (f1 ++ fa ++ f2) in
   let b := S (list_max names) in
-  let rn := fun (i : nat) (l : list fcomp) => if p_rename pol then rename_from names b i l else map snd l in
+  let rn := fun (i : nat) (l : list fcomp) => if final && p_rename pol then rename_from names b i l else map snd l in
   TCons k (rn 0%nat f1)
         (match ee with Some _ => Some (rn (length f1) fa) | None => None end)
         (rn (length f1 + length fa)%nat f2).
@@ -219,18 +227,21 @@ Fixpoint expand_ty (t : xty) : option ty :=
   end.
 End Expand.
 
-Fixpoint expand_defs (pol : policy) (tg : tagging) (done : list def) (todo : list xdef) : option (list def) :=
+Definition mk_def (d : xdef) (t : ty) : def := {| d_name := xd_name d; d_tag := xd_tag d; d_ty := t |}.
+
+(* [done]: the earlier definitions as a clone sees them; [out]: as the module has them *)
+Fixpoint expand_defs (pol : policy) (tg : tagging) (done out : list def) (todo : list xdef) : option (list def) :=
   match todo with
-  | [] => Some done
+  | [] => Some out
   | d :: todo' =>
-      match expand_ty pol tg done (xd_ty d) with
-      | Some t => expand_defs pol tg (done ++ [{| d_name := xd_name d; d_tag := xd_tag d; d_ty := t |}]) todo'
-      | None => None
+      match expand_ty pol tg true done (xd_ty d), expand_ty pol tg false done (xd_ty d) with
+      | Some t, Some tc => expand_defs pol tg (done ++ [mk_def d tc]) (out ++ [mk_def d t]) todo'
+      | _, _ => None
       end
   end.
 
 Definition expand (pol : policy) (xm : xmodule) : option module :=
-  match expand_defs pol (xm_tagging xm) [] (xm_defs xm) with
+  match expand_defs pol (xm_tagging xm) [] [] (xm_defs xm) with
   | Some ds => Some {| m_tagging := xm_tagging xm; m_defs := ds |}
   | None => None
   end.
